@@ -326,11 +326,13 @@ def levelPairs (t : RawTree) : List (Option Level × Level) :=
   (none :: t.hierarchy.map some).zip t.hierarchy
 
 /-- for one `(parent_level, child_level)`: the node names of the child level
-are distinct; every parent node has children, all of them nodes of the child
-level; different parents share no child -/
+are distinct and each of them is the child of some parent node; every parent
+node has children, all of them nodes of the child level; different parents
+share no child -/
 def levelOK (t : RawTree) (pl : Option Level) (cl : Level) : Bool :=
   let ps := parentNodeList t pl
   !RawTree.hasDup (t.nodesAt cl) &&
+  (t.nodesAt cl).all (fun c => ps.any (fun p => (kidsD t p).contains c)) &&
   ps.all (fun p =>
     (match t.children p with
      | .ok kids => !kids.isEmpty && kids.all (fun c => (t.nodesAt cl).contains c)
